@@ -48,7 +48,7 @@ def decode_closure(F, G):
 
 def run(ctx):
     F, G = ctx.F, ctx.G
-    ctx.trust("speedy 0.8.7 Reader::read_vec/read_bytes/Vec<T>::read_from are bounded by the remaining input (read in source)",
+    ctx.trust("speedy 0.8.7 Reader::read_vec/read_bytes/Vec<T>::read_from are bounded by the remaining input when T::minimum_bytes_needed() > 0 (read in source; the proviso is C09.vecmin)",
               "bytes::Buf getters panic on underflow (hence must be guarded)", "std panicking API list",
               "third-party datagram decoders (foca/bincode) are outside the workspace and not analysed")
     ctx.assume("value-level round-trip equality and byte-compatibility with cr-sqlite's crsql_pack_columns are not decided",
